@@ -357,13 +357,16 @@ func cmpParts(lit *ast.FuncLit) (string, token.Token, string, bool) {
 func init() {
 	register(&Property{
 		ID:    "C15",
-		Rules: []string{"C15-R1", "C15-R2", "C15-R3", "C15-R4", "C15-R5", "C15-R6", "C15-R7", "C15-R8", "C15-R9"},
+		Rules: []string{"C15-R1", "C15-R2", "C15-R3", "C15-R4", "C15-R5", "C15-R6", "C15-R7", "C15-R8", "C15-R9", "C15-R10", "C15-R11", "C06-R7"},
 		Explain: "Decides that presentation switches are wired so that they cannot change numbers: C15-R1 the templates selectable through the same option show the same set of fields; C15-R3 every shorten width equals the width of the column the name is printed in; C15-R2 every colouring function, over colour on/off x sign(value), renders positive red, negative green, zero and colour-off plain, and stripped of escape sequences every rendering equals the plain one (same verb, same width); " +
 			"C15-R4 at the register's expansion sites what goes into the day's accumulator does not depend on totals-only (the switches gate lines only); C15-R5 each descending comparator is the ascending one mirrored; " +
 			"C15-R6 presentation flags declared on several levels (no-color) are read through the context lineage so either position works; " +
 			"C15-R7 in every collapse mode a balance row shows the visited child's own Total and a subtree is skipped only where the mode joins it into the row; " +
 			"C15-R8 the template path (GetReportItem) and the old reporter expand a logged food by the same rule, so choosing a template or the old reporter shows the same records; " +
-			"C15-R9 no package-level state (a template cache, a colour switch) is written while a command runs.",
+			"C15-R9 no package-level state (a template cache, a colour switch) is written while a command runs; " +
+			"C15-R10 every printf format in the tree is built from constants and constant padding, so no display mode can misprint a name that contains '%'; " +
+			"C15-R11 no string is cut at a computed byte position in the command packages (shortening is the rune-aware library's); " +
+			"C06-R7 (shared) no reporter or template function converts a date to the process time zone, so every template and the old reporter show the same day.",
 		NotDecided: "that two renderings contain the same digits, the interleaving claim, truncation arithmetic inside the truncate library",
 		Run: func(c *core.Ctx) {
 			ruleTemplates(c, "", "C15-R1", "C15-R3")
@@ -374,6 +377,52 @@ func init() {
 			ruleTreePrinters(c, "C15-R7")
 			ruleExpansionSites(c, "C15-R8", func(fn *ssa.Function) bool { return inPkgs(fn, registerPkg, reporterPkg) })
 			ruleGlobalState(c, "C15-R9")
+			ruleConstFormats(c, "C15-R10", nil)
+			ruleNoByteSlicing(c, "C15-R11")
+			ruleZoneAPIs(c, "C06-R7")
 		},
 	})
+}
+
+// ruleNoByteSlicing is C15-R11: the command packages never cut a run-time
+// string at a computed byte position (s[a:b] with non-constant bounds). Names
+// are UTF-8: a byte cut can fall inside a character and a byte count is not a
+// column count, so a "shortened" name would be neither a prefix nor a suffix
+// of the original nor fit the column. Shortening goes through the rune-aware
+// truncate library (C15-R3 checks its widths).
+func ruleNoByteSlicing(c *core.Ctx, rule string) {
+	n := 0
+	for _, fn := range c.P.Funcs {
+		if !strings.HasPrefix(core.FnPkgPath(fn), core.CmdPath) {
+			continue
+		}
+		for _, b := range fn.Blocks {
+			for _, in := range b.Instrs {
+				sl, ok := in.(*ssa.Slice)
+				if !ok {
+					continue
+				}
+				if bt, ok := sl.X.Type().Underlying().(*types.Basic); !ok || bt.Info()&types.IsString == 0 {
+					continue
+				}
+				nonConst := false
+				for _, bnd := range []ssa.Value{sl.Low, sl.High} {
+					if bnd == nil {
+						continue
+					}
+					if _, isC := bnd.(*ssa.Const); !isC {
+						nonConst = true
+					}
+				}
+				if !nonConst {
+					continue
+				}
+				n++
+				c.Violate(rule, core.FuncName(fn), "slice "+sl.X.Name(), c.P.Pos(sl.Pos()), "a string is cut at a computed byte position: for a name with multi-byte characters the cut can fall inside a character and the byte length is not the column width, so the shortened text is not a prefix/suffix of the original and may not fit", nil)
+			}
+		}
+	}
+	if n == 0 {
+		c.Discharge(rule, "commands", "no-byte-slicing", "-", "no string is sliced at a computed byte position in the command packages")
+	}
 }
